@@ -20,7 +20,9 @@ class C15(Prop):
         "made meanwhile, the node is restarted and the lists are compared again. Oracle: every live node returns the same "
         "instances (address, health, enabled, weight) and they are the registered ones. non-trivial = contains a comparison"))]
     trusted_base = [
-        "no gRPC clients: the part of the property about instances held by a dead node's gRPC connections is not exercised",
+        "gRPC clients are the nacos_rust_client crate (a dependency of r-nacos itself); one directed scenario kills the node a "
+        "client is connected to and demands that its instances are gone from the other nodes after 30 s, and that all agree "
+        "after the node is back",
         "settling times are generous bounds; 'eventually' is explored, not proved",
     ]
     assumptions = ["ephemeral HTTP instances are compared before their heartbeat time-out (15 s)"]
